@@ -5,6 +5,7 @@ import (
 	"fmt"
 	"os"
 	"strings"
+	"time"
 
 	"github.com/fiorix/go-diameter/v4/diam"
 	"github.com/fiorix/go-diameter/v4/diam/datatype"
@@ -304,6 +305,12 @@ func CompareTree(got []*diam.AVP, want []atoms.N, path string) string {
 		}
 		if !bytes.Equal(payload, w.V.Ref()) {
 			return fmt.Sprintf("%s (code %d, %s): value %x, expected %x", p, g.Code, kn, payload, w.V.Ref())
+		}
+		if t, ok := g.Data.(datatype.Time); ok {
+			// the 32-bit wire value is ambiguous modulo 2^32 seconds: compare the instant itself
+			if got, want := time.Time(t).Unix(), int64(w.V.U); got != want {
+				return fmt.Sprintf("%s (code %d, Time): decoded as %s, expected %s", p, g.Code, time.Unix(got, 0).UTC().Format(time.RFC3339), time.Unix(want, 0).UTC().Format(time.RFC3339))
+			}
 		}
 	}
 	return ""
